@@ -2,7 +2,7 @@
 Reference = the same loop with the @tile attribute deleted."""
 import os, re, itertools
 from vlib import common as C, okl as O
-from props.C17 import direction_ok, NEG
+from props.C17 import direction_ok, NEG, wide_excl
 
 R = 1 << 12
 SIG = 'const int N, const int a, const int b, const int s, const int t, int *out'
@@ -39,6 +39,8 @@ def make(name, T, init, cmp_, side, bound, step, tile, form, check, tier):
     if not check:
         p.mid_assumes = ['nvis[0] %% (%s) == 0' % tile]
     p.excl_post = {'negative-trip-count': NEG}
+    if T == 'long':
+        p.excl = {'wide-iterator-negative': wide_excl(init, bound)}
     p.form = form
     return p
 
@@ -96,12 +98,8 @@ def run(ctx):
     wv = [dict(N=3, a=1, b=1, s=1, t=1), dict(N=1, a=3, b=1, s=1, t=1), dict(N=0, a=0, b=0, s=1, t=1), dict(N=4, a=0, b=0, s=2, t=2), dict(N=0, a=4, b=0, s=2, t=2),
           dict(N=2, a=0, b=2, s=1, t=2), dict(N=6, a=0, b=0, s=3, t=2), dict(N=0, a=6, b=0, s=3, t=2), dict(N=0, a=0, b=0, s=1, t=3), dict(N=16, a=0, b=0, s=1, t=1)]
     qs, rejected = O.make_queries(ctx, progs, O.MODES, O.visit_harness, known_keys=list(known), timeout=600 if thorough else 150, witness_vectors=wv, modes_of=modes_of)
-    if 'negative-trip-count' in known and not ctx.only:
-        kp = [p for p in progs if p.form == 'oi'][:1]
-        kq, _ = O.make_queries(ctx, kp, ['OpenCL'], O.visit_harness, known_keys=[], timeout=150)
-        for q in kq:
-            q.name += '/known'; q.expect = 'fail'; q.known = 'key=negative-trip-count ' + known['negative-trip-count']
-        qs += kq
+    if not ctx.only:
+        qs += O.known_reconfirm(ctx, progs, known, O.visit_harness)
     C.run_queries(ctx, qs)
     ctx.extra['programs'] = len(progs)
     ctx.extra['programs_rejected_by_occa'] = rejected[:40]
